@@ -3,7 +3,8 @@ import Toodee.Proofs.CellsLemmas
 import Toodee.Properties.C13
 /-
   Helper lemmas for C15 (translate / flips).  Core-only (no Mathlib); the number theory of the cycle-leader loop is
-  isolated in the hypothesis structure `OrbitFacts`, which `Toodee/Proofs/Orbit.lean` establishes.
+  isolated in the hypothesis structure `OrbitFacts`, which `Toodee/Proofs/Orbit.lean` establishes (also core-only:
+  `Nat.gcd` / `Nat.Coprime` are in Lean core) together with the final `translate_spec`.
 
   * arithmetic: `x % C` for `x < 2C`, the predecessor row on a cycle;
   * cell maps of the std building blocks on row windows (`rotlMap`, `revMap`, `swapWinMap`, the two `swap_with_slice`
@@ -74,6 +75,16 @@ theorem tr_cols_le {v : VW} {n : Nat} (h : v.Inv n) (hr : 0 < v.numRows) : v.num
   have hl := h.len
   rw [if_neg (by omega)] at hl
   have h1 := h.inside
+  omega
+
+/-- with at least two rows, twice the row length fits a `usize` (so `mid += col_mid` cannot overflow) -/
+theorem tr_two_cols_lt {v : VW} {n : Nat} (h : v.Inv n) (hr : 2 ≤ v.numRows) : 2 * v.numCols < WORD := by
+  have hl := h.len
+  rw [if_neg (by omega)] at hl
+  have h1 := h.inside
+  have h2 := h.stride
+  have h3 := h.word
+  have : 1 * v.stride ≤ (v.numRows - 1) * v.stride := Nat.mul_le_mul_right _ (by omega)
   omega
 
 /-! ### cell maps that act inside rows -/
@@ -529,8 +540,8 @@ theorem tr_ite_bind {β γ : Type} (c : Prop) [Decidable c] (x y : Res β) (f : 
   split <;> rfl
 
 theorem translateInner_succ (m : Mode) (a : Acc) (getRowMut : Nat → Res Win)
-    (numCols numRows colMid rowAdj baseRow fuel : Nat) (buf : List α) (mid nextRow sc : Nat) :
-    translateInner m a getRowMut numCols numRows colMid rowAdj baseRow (fuel + 1) buf mid nextRow sc =
+    (numCols numRows colMid rowMid rowAdj baseRow fuel : Nat) (buf : List α) (mid nextRow sc : Nat) :
+    translateInner m a getRowMut numCols numRows colMid rowMid rowAdj baseRow (fuel + 1) buf mid nextRow sc =
      ((if nextRow ≥ numRows then usub m nextRow numRows else pure nextRow) >>= fun nextRow =>
       uadd m sc 1 >>= fun swapCount =>
       if baseRow = nextRow then
@@ -541,22 +552,22 @@ theorem translateInner_succ (m : Mode) (a : Acc) (getRowMut : Nat → Res Win)
         swapRotate m a buf baseRow nextRow mid numCols >>= fun buf =>
         uadd m mid colMid >>= fun mid1 =>
         (if mid1 ≥ numCols then usub m mid1 numCols else pure mid1) >>= fun mid2 =>
-        uadd m nextRow rowAdj >>= fun nextRow' =>
-        translateInner m a getRowMut numCols numRows colMid rowAdj baseRow fuel buf mid2 nextRow' swapCount) := by
+        (if nextRow ≥ rowMid then usub m nextRow rowMid else uadd m nextRow rowAdj) >>= fun nextRow' =>
+        translateInner m a getRowMut numCols numRows colMid rowMid rowAdj baseRow fuel buf mid2 nextRow' swapCount) := by
   rw [translateInner]
   simp only [tr_ite_bind, pure_eq, ok_bind]
 
 theorem translateOuter_succ (m : Mode) (a : Acc) (getRowMut : Nat → Res Win)
-    (numCols numRows colMid rowAdj fuel : Nat) (buf : List α) (sc baseRow : Nat) :
-    translateOuter m a getRowMut numCols numRows colMid rowAdj (fuel + 1) buf sc baseRow =
+    (numCols numRows colMid rowMid rowAdj fuel : Nat) (buf : List α) (sc baseRow : Nat) :
+    translateOuter m a getRowMut numCols numRows colMid rowMid rowAdj (fuel + 1) buf sc baseRow =
       if sc < numRows then
         uadd m baseRow rowAdj >>= fun nextRow =>
-        translateInner m a getRowMut numCols numRows colMid rowAdj baseRow (numRows + 2) buf colMid nextRow sc
+        translateInner m a getRowMut numCols numRows colMid rowMid rowAdj baseRow (numRows + 2) buf colMid nextRow sc
           >>= fun r =>
         if r.2 ≥ numRows then pure r.1
         else
           uadd m baseRow 1 >>= fun baseRow =>
-          translateOuter m a getRowMut numCols numRows colMid rowAdj fuel r.1 r.2 baseRow
+          translateOuter m a getRowMut numCols numRows colMid rowMid rowAdj fuel r.1 r.2 baseRow
       else pure buf := by
   rw [translateOuter]
 
@@ -598,8 +609,8 @@ theorem inner_spec (m : Mode) {v : VW} (buf : List α) (h : v.Inv buf.length) {a
       src b = nx v.numRows (v.numRows - mr) b j → rot b < v.numCols → (rot b + mid) % v.numCols = mc →
       mid < v.numCols →
       ∃ src' rot',
-        translateInner m a getRowMut v.numCols v.numRows mc (v.numRows - mr) b fuel cur mid
-            (nx v.numRows (v.numRows - mr) b j + (v.numRows - mr)) sc
+        translateInner m a getRowMut v.numCols v.numRows mc mr (v.numRows - mr) b fuel cur mid
+            (nx v.numRows (v.numRows - mr) b (j + 1)) sc
           = .ok (gather buf (v.mapCells (rowG v.numCols src' rot')), sc + (L - j)) ∧
         (∀ r, r < v.numRows →
           (r ∈ S ∨ ∃ k, 0 < k ∧ k ≤ L ∧ r = nx v.numRows (v.numRows - mr) b k) →
@@ -609,7 +620,7 @@ theorem inner_spec (m : Mode) {v : VW} (buf : List α) (h : v.Inv buf.length) {a
   have hR : 0 < v.numRows := by omega
   have hC : 0 < v.numCols := by omega
   have hRw : v.numRows < WORD := Nat.lt_of_le_of_lt (tr_rows_le h) h.word
-  have hCw : v.numCols < WORD := Nat.lt_of_le_of_lt (tr_cols_le h hR) h.word
+  have hCw : 2 * v.numCols < WORD := tr_two_cols_lt h (by omega)
   intro fuel
   induction fuel with
   | zero => intro j _ _ _ _ _ hjL hfuel; omega
@@ -628,15 +639,11 @@ theorem inner_spec (m : Mode) {v : VW} (buf : List α) (h : v.Inv buf.length) {a
     -- the predecessor of row `nx (j+1)` on the cycle is `nx j`
     have hpred : nx v.numRows (v.numRows - mr) b j = (nx v.numRows (v.numRows - mr) b (j + 1) + mr) % v.numRows :=
       pred_row hnj hn1 hmr0 hmr (nx_succ _ _ _ _).symm
-    have hnorm : (if nx v.numRows (v.numRows - mr) b j + (v.numRows - mr) ≥ v.numRows then
-          usub m (nx v.numRows (v.numRows - mr) b j + (v.numRows - mr)) v.numRows
-        else pure (nx v.numRows (v.numRows - mr) b j + (v.numRows - mr)))
+    have hnorm : (if nx v.numRows (v.numRows - mr) b (j + 1) ≥ v.numRows then
+          usub m (nx v.numRows (v.numRows - mr) b (j + 1)) v.numRows
+        else pure (nx v.numRows (v.numRows - mr) b (j + 1)))
         = Except.ok (nx v.numRows (v.numRows - mr) b (j + 1)) := by
-      rw [nx_succ]
-      rcases tr_mod_cases (x := nx v.numRows (v.numRows - mr) b j + (v.numRows - mr)) (C := v.numRows)
-        (by omega) with ⟨h1, h2⟩ | ⟨h1, h2⟩
-      · rw [if_neg (by omega), h2]; rfl
-      · rw [if_pos h1, h2, usub_ok m _ _ h1]
+      rw [if_neg (by omega)]; rfl
     rw [translateInner_succ, hnorm]
     simp only [ok_bind]
     rw [uadd_ok m sc 1 (by omega)]
@@ -711,7 +718,18 @@ theorem inner_spec (m : Mode) {v : VW} (buf : List α) (h : v.Inv buf.length) {a
         · exact ⟨mid + mc, by rw [if_neg hge]; rfl, by omega, Or.inl rfl⟩
       rw [hmid'eq]
       simp only [ok_bind]
-      rw [uadd_ok m _ (v.numRows - mr) (by omega)]
+      -- the next row on the cycle, formed without exceeding `numRows`
+      have hnext : (if nx v.numRows (v.numRows - mr) b (j + 1) ≥ mr then
+            usub m (nx v.numRows (v.numRows - mr) b (j + 1)) mr
+          else uadd m (nx v.numRows (v.numRows - mr) b (j + 1)) (v.numRows - mr))
+          = Except.ok (nx v.numRows (v.numRows - mr) b (j + 1 + 1)) := by
+        rw [nx_succ v.numRows (v.numRows - mr) b (j + 1)]
+        rcases tr_mod_cases (x := nx v.numRows (v.numRows - mr) b (j + 1) + (v.numRows - mr)) (C := v.numRows)
+          (by omega) with ⟨h1, h2⟩ | ⟨h1, h2⟩
+        · rw [if_neg (by omega), h2, uadd_ok m _ _ (by omega)]
+        · rw [if_pos (by omega), h2, usub_ok m _ _ (by omega)]
+          congr 1; omega
+      rw [hnext]
       simp only [ok_bind]
       have hcnt : sc + 1 + (L - (j + 1)) = sc + (L - j) := by omega
       rw [← hcnt]
@@ -746,5 +764,295 @@ theorem inner_spec (m : Mode) {v : VW} (buf : List α) (h : v.Inv buf.length) {a
       · rw [upd_same]; exact Nat.mod_lt _ hC
       · rw [upd_same, hfr.2, Nat.mod_add_mod]
         exact tr_mod_eq_of_cases hmc (by omega)
+
+/-! ### counting: a duplicate-free list of `R` naturals below `R` contains all of them -/
+
+theorem tr_nodup_length_le (l : List Nat) (R : Nat) (hn : l.Nodup) (hlt : ∀ x ∈ l, x < R) : l.length ≤ R := by
+  induction R generalizing l with
+  | zero =>
+    cases l with
+    | nil => simp
+    | cons x xs => exact absurd (hlt x List.mem_cons_self) (Nat.not_lt_zero _)
+  | succ R ih =>
+    have h1 := ih (l.erase R) (hn.erase R) (fun x hx => by
+      have h2 := (hn.mem_erase_iff).1 hx
+      have h3 := hlt x h2.2
+      have h4 := h2.1
+      omega)
+    by_cases hm : R ∈ l
+    · rw [List.length_erase_of_mem hm] at h1; omega
+    · rw [List.erase_of_not_mem hm] at h1; omega
+
+theorem tr_nodup_full (l : List Nat) (R : Nat) (hn : l.Nodup) (hlt : ∀ x ∈ l, x < R) (hlen : l.length = R) :
+    ∀ r, r < R → r ∈ l := by
+  intro r hr
+  apply Classical.byContradiction
+  intro hnot
+  have h1 := tr_nodup_length_le (r :: l) R (List.nodup_cons.2 ⟨hnot, hn⟩) (by
+    intro x hx
+    rcases List.mem_cons.1 hx with rfl | hx
+    · exact hr
+    · exact hlt x hx)
+  simp only [List.length_cons] at h1
+  omega
+
+/-! ### the outer loop -/
+
+/-- the target cell map of `translate_with_wrap` (`translateG` of C15) -/
+def trG (C R mc mr : Nat) : Nat × Nat → Nat × Nat := fun cr => ((cr.1 + mc) % C, (cr.2 + mr) % R)
+
+/-- what the loops need to know about the orbits of `r ↦ (r + A) % R`: `g` orbits of length `L`, the orbit of `b`
+    lies in the residue class of `b` modulo `g` -/
+structure OrbitFacts (R A g L : Nat) : Prop where
+  gL : g * L = R
+  gA : g ∣ A
+  ret : ∀ b, b < R → nx R A b L = b
+  inj : ∀ b j k, j < k → nx R A b j = nx R A b k → L ∣ (k - j)
+  res : ∀ b k, nx R A b k % g = b % g
+
+/-- the rows `nx 1, …, nx L` of the cycle of base `b` -/
+def cyc (R A b L : Nat) : List Nat := (List.range L).map fun k => nx R A b (k + 1)
+
+theorem mem_cyc {R A b L r : Nat} : r ∈ cyc R A b L ↔ ∃ k, 0 < k ∧ k ≤ L ∧ r = nx R A b k := by
+  simp only [cyc, List.mem_map, List.mem_range]
+  constructor
+  · rintro ⟨k, hk, rfl⟩; exact ⟨k + 1, by omega, by omega, rfl⟩
+  · rintro ⟨k, hk0, hkL, rfl⟩; exact ⟨k - 1, by omega, by rw [Nat.sub_add_cancel hk0]⟩
+
+theorem cyc_length (R A b L : Nat) : (cyc R A b L).length = L := by simp [cyc]
+
+theorem cyc_nodup {R A g L b : Nat} (of : OrbitFacts R A g L) : (cyc R A b L).Nodup := by
+  rw [cyc, List.nodup_iff_pairwise_ne, List.pairwise_map]
+  refine List.Pairwise.imp_of_mem ?_ (List.pairwise_lt_range (n := L))
+  intro j k hj hk hjk he
+  have hd := of.inj b (j + 1) (k + 1) (by omega) he
+  have := Nat.le_of_dvd (by omega) hd
+  have := List.mem_range.1 hk
+  omega
+
+theorem outer_spec (m : Mode) {v : VW} (buf : List α) (h : v.Inv buf.length) {a : Acc} (ha : a.Of v buf.length)
+    (getRowMut : Nat → Res Win) (hget : ∀ r, r < v.numRows → getRowMut r = .ok (v.rowWin r))
+    {mc mr : Nat} (hmc : mc < v.numCols) (hmr0 : 0 < mr) (hmr : mr < v.numRows)
+    {g L : Nat} (of : OrbitFacts v.numRows (v.numRows - mr) g L) :
+    ∀ (fuel i : Nat) (cur : List α) (src rot : Nat → Nat) (S : List Nat),
+      i < g → g - i ≤ fuel →
+      cur = gather buf (v.mapCells (rowG v.numCols src rot)) →
+      S.length = i * L → S.Nodup → (∀ r ∈ S, r < v.numRows ∧ r % g < i) →
+      (∀ r, r < v.numRows → r ∈ S → RowDone v.numRows mr mc src rot r) →
+      (∀ r, r < v.numRows → r ∉ S → RowFresh src rot r) →
+      translateOuter m a getRowMut v.numCols v.numRows mc mr (v.numRows - mr) fuel cur (i * L) i =
+        .ok (gather buf (v.mapCells (trG v.numCols v.numRows mc mr))) := by
+  have hR : 0 < v.numRows := by omega
+  have hRw : v.numRows < WORD := Nat.lt_of_le_of_lt (tr_rows_le h) h.word
+  have hL : 0 < L := by
+    rcases Nat.eq_zero_or_pos L with h0 | h0
+    · have := of.gL; rw [h0, Nat.mul_zero] at this; omega
+    · exact h0
+  have hgR : g ≤ v.numRows := by
+    have := of.gL
+    have : g * 1 ≤ g * L := Nat.mul_le_mul_left g hL
+    omega
+  -- `g ∣ mr`, so a base row `i < g` has `i + (R - mr) < R`
+  have hgmr : g ≤ mr := by
+    have h1 : g ∣ v.numRows := ⟨L, of.gL.symm⟩
+    have h2 : g ∣ v.numRows - (v.numRows - mr) := Nat.dvd_sub h1 of.gA
+    have h3 : v.numRows - (v.numRows - mr) = mr := by omega
+    rw [h3] at h2
+    exact Nat.le_of_dvd hmr0 h2
+  intro fuel
+  induction fuel with
+  | zero => intro i _ _ _ _ hi hf; omega
+  | succ fuel ih =>
+    intro i cur src rot S hig hfuel hcur hSlen hSnd hSres hdone hfresh
+    have hiR : i < v.numRows := by omega
+    -- `(i + 1) * L ≤ R`
+    have hcount : i * L + L ≤ v.numRows := by
+      have h1 : (i + 1) * L ≤ g * L := Nat.mul_le_mul_right L (by omega)
+      rw [Nat.succ_mul, of.gL] at h1; exact h1
+    have hLR : L ≤ v.numRows := by omega
+    have hiS : i ∉ S := by
+      intro hin
+      have := (hSres i hin).2
+      rw [Nat.mod_eq_of_lt hig] at this
+      omega
+    have hfi := hfresh i hiR hiS
+    -- the facts about the cycle of base `i`
+    have hnS : ∀ k, nx v.numRows (v.numRows - mr) i k ∉ S := by
+      intro k hin
+      have := (hSres _ hin).2
+      rw [of.res, Nat.mod_eq_of_lt hig] at this
+      omega
+    have hnr : ∀ k, 0 < k → k < L → nx v.numRows (v.numRows - mr) i k ≠ i := by
+      intro k hk0 hkL he
+      have hd := of.inj i 0 k hk0 (by rw [nx_zero hiR, he])
+      have := Nat.le_of_dvd (by omega) hd
+      omega
+    have hinj : ∀ j k, 0 < j → j < k → k < L →
+        nx v.numRows (v.numRows - mr) i j ≠ nx v.numRows (v.numRows - mr) i k := by
+      intro j k _ hjk hkL he
+      have hd := of.inj i j k hjk he
+      have := Nat.le_of_dvd (by omega) hd
+      omega
+    rw [translateOuter_succ, if_pos (by omega), uadd_ok m _ _ (by omega)]
+    simp only [ok_bind]
+    obtain ⟨src', rot', hinner, hdone', hfresh'⟩ :=
+      inner_spec m buf h ha getRowMut hget hmc hmr0 hmr hiR S (of.ret i hiR) hnr hinj hnS
+        (v.numRows + 2) 0 cur src rot mc (i * L) hL (by omega) (by omega) hcur
+        (fun r hr hri hin => by
+          rcases hin with hin | ⟨k, hk0, hk1, _⟩
+          · exact hdone r hr hin
+          · omega)
+        (fun r hr hri hin => hfresh r hr (fun hh => hin (Or.inl hh)))
+        (by rw [nx_zero hiR]; exact hfi.1) (by rw [hfi.2]; omega)
+        (by rw [hfi.2, Nat.zero_add]; exact Nat.mod_eq_of_lt hmc) hmc
+    have hfirst : i + (v.numRows - mr) = nx v.numRows (v.numRows - mr) i (0 + 1) := by
+      rw [nx, Nat.zero_add, Nat.one_mul, Nat.mod_eq_of_lt (by omega)]
+    rw [hfirst, hinner]
+    simp only [ok_bind, Nat.sub_zero]
+    -- the new set of finished rows
+    have hmemS' : ∀ r, r ∈ S ++ cyc v.numRows (v.numRows - mr) i L ↔
+        (r ∈ S ∨ ∃ k, 0 < k ∧ k ≤ L ∧ r = nx v.numRows (v.numRows - mr) i k) := by
+      intro r; rw [List.mem_append, mem_cyc]
+    have hS'len : (S ++ cyc v.numRows (v.numRows - mr) i L).length = (i + 1) * L := by
+      rw [List.length_append, cyc_length, hSlen, Nat.succ_mul]
+    have hS'nd : (S ++ cyc v.numRows (v.numRows - mr) i L).Nodup := by
+      rw [List.nodup_append]
+      refine ⟨hSnd, cyc_nodup of, ?_⟩
+      intro x hx y hy hxy
+      obtain ⟨k, _, _, hk⟩ := mem_cyc.1 hy
+      exact hnS k (by rw [← hk, ← hxy]; exact hx)
+    have hS'res : ∀ r ∈ S ++ cyc v.numRows (v.numRows - mr) i L, r < v.numRows ∧ r % g < i + 1 := by
+      intro r hr
+      rcases List.mem_append.1 hr with hr | hr
+      · have := hSres r hr; exact ⟨this.1, by omega⟩
+      · obtain ⟨k, _, _, hk⟩ := mem_cyc.1 hr
+        rw [hk]
+        refine ⟨nx_lt _ _ _ hR, ?_⟩
+        rw [of.res, Nat.mod_eq_of_lt hig]; omega
+    have hsc : i * L + L = (i + 1) * L := by rw [Nat.succ_mul]
+    by_cases hlast : i + 1 = g
+    · -- all rows are finished
+      have hfull : (i + 1) * L = v.numRows := by rw [hlast]; exact of.gL
+      rw [if_pos (by omega)]
+      simp only [pure_eq]
+      congr 1
+      apply gather_congr
+      intro p _
+      apply VW.mapCells_congr
+      intro c r _ hr
+      have hin := tr_nodup_full _ v.numRows hS'nd (fun x hx => (hS'res x hx).1) (by rw [hS'len, hfull]) r hr
+      have hd := hdone' r hr ((hmemS' r).1 hin)
+      simp only [rowG, trG, hd.1, hd.2]
+    · have hi1 : i + 1 < g := by omega
+      have hcount2 : (i + 1) * L + L ≤ v.numRows := by
+        have h1 : (i + 1 + 1) * L ≤ g * L := Nat.mul_le_mul_right L (by omega)
+        rw [Nat.succ_mul, of.gL] at h1; exact h1
+      rw [if_neg (by omega), uadd_ok m _ _ (by omega)]
+      simp only [ok_bind]
+      rw [hsc]
+      exact ih (i + 1) _ src' rot' (S ++ cyc v.numRows (v.numRows - mr) i L) hi1 (by omega) rfl hS'len hS'nd
+        hS'res (fun r hr hin => hdone' r hr ((hmemS' r).1 hin))
+        (fun r hr hin => hfresh' r hr (fun hh => hin ((hmemS' r).2 hh)))
+
+/-! ### `translate_with_wrap` -/
+
+/-- the column-only fast path (`row_mid == 0` after normalisation) -/
+theorem translate_cols_only (m : Mode) {v : VW} (buf : List α) (h : v.Inv buf.length) {a : Acc}
+    (ha : a.Of v buf.length) (getRowMut : Nat → Res Win) (mid : Nat × Nat)
+    (hm : mid.1 ≤ v.numCols) (hr : mid.2 = 0 ∨ mid.2 = v.numRows) :
+    a.translateWithWrap m getRowMut buf mid =
+      .ok (gather buf (v.mapCells (trG v.numCols v.numRows mid.1 mid.2))) := by
+  have hm2 : mid.2 ≤ v.numRows := by rcases hr with h | h <;> omega
+  have hrow : (if mid.2 = v.numRows then 0 else mid.2) = 0 := by
+    rcases hr with h | h
+    · rw [h]; split <;> rfl
+    · rw [if_pos h]
+  -- the target cell map only rotates inside rows
+  have htgt : ∀ c r, c < v.numCols → r < v.numRows →
+      trG v.numCols v.numRows mid.1 mid.2 (c, r) =
+        ((c + (if mid.1 = v.numCols then 0 else mid.1)) % v.numCols, r) := by
+    intro c r _ hr'
+    simp only [trG, Prod.mk.injEq]
+    constructor
+    · split
+      · rename_i h1; rw [h1, Nat.add_mod_right, Nat.add_zero]
+      · rfl
+    · rcases hr with h | h
+      · rw [h, Nat.add_zero, Nat.mod_eq_of_lt hr']
+      · rw [h, Nat.add_mod_right, Nat.mod_eq_of_lt hr']
+  unfold Acc.translateWithWrap
+  simp only [ha.cols, ha.rows, hm, hm2, hrow, not_true_eq_false, if_false, if_true]
+  by_cases hc0 : (if mid.1 = v.numCols then 0 else mid.1) = 0
+  · simp only [hc0, ne_eq, not_true_eq_false, if_false, pure_eq]
+    congr 1
+    refine (gather_eq_self buf _ (fun p _ => VW.mapCells_eq_self _ (fun c r hc hr' => ?_) p)).symm
+    rw [htgt c r hc hr', hc0, Nat.add_zero, Nat.mod_eq_of_lt hc]
+  · simp only [hc0, ne_eq, not_false_eq_true, if_true]
+    rw [ha.collect_rows]
+    simp only [ok_bind]
+    have hcm : (if mid.1 = v.numCols then 0 else mid.1) ≤ v.numCols := by split <;> omega
+    have hC : 0 < v.numCols := by
+      rcases Nat.eq_zero_or_pos v.numCols with h0 | h0
+      · exfalso; apply hc0; split <;> omega
+      · exact h0
+    rw [foldlM_rows buf h (fun c => (c + (if mid.1 = v.numCols then 0 else mid.1)) % v.numCols)
+      (fun c _ => Nat.mod_lt _ hC) _ ?_ v.numRows (Nat.le_refl _)]
+    · congr 1
+      exact gather_congr buf _ _ (fun p _ => VW.mapCells_congr _ _
+        (fun c r hc hr' => by rw [htgt c r hc hr']; simp [prefColG, hr']) p)
+    · intro cur r hl hr'
+      unfold rotateLeftWin
+      rw [if_pos (by simpa [VW.rowWin] using hcm)]
+      simp only [pure_eq]
+      congr 1
+      exact gather_congr cur _ _ (fun p _ => rotlMap_eq_mapCells (hl ▸ h) hr' _ p)
+
+/-- the general case, given the orbit structure of `r ↦ (r + (R - mr)) % R` -/
+theorem translate_of_orbit (m : Mode) {v : VW} (buf : List α) (h : v.Inv buf.length) {a : Acc}
+    (ha : a.Of v buf.length) (getRowMut : Nat → Res Win)
+    (hget : ∀ r, r < v.numRows → getRowMut r = .ok (v.rowWin r))
+    (mid : Nat × Nat) (hm : mid.1 ≤ v.numCols ∧ mid.2 ≤ v.numRows)
+    (horb : ∀ A, 0 < A → A < v.numRows → ∃ g L, OrbitFacts v.numRows A g L) :
+    a.translateWithWrap m getRowMut buf mid =
+      .ok (gather buf (v.mapCells (trG v.numCols v.numRows mid.1 mid.2))) := by
+  by_cases hr : mid.2 = 0 ∨ mid.2 = v.numRows
+  · exact translate_cols_only m buf h ha getRowMut mid hm.1 hr
+  · have hmr0 : 0 < mid.2 := by omega
+    have hmr : mid.2 < v.numRows := by omega
+    have hR : 0 < v.numRows := by omega
+    have hC : 0 < v.numCols := tr_cols_pos h hR
+    obtain ⟨g, L, of⟩ := horb (v.numRows - mid.2) (by omega) (by omega)
+    have hg : 0 < g := by
+      rcases Nat.eq_zero_or_pos g with h0 | h0
+      · have := of.gL; rw [h0, Nat.zero_mul] at this; omega
+      · exact h0
+    have hgR : g ≤ v.numRows := by
+      have h1 := of.gL
+      rcases Nat.eq_zero_or_pos L with h0 | h0
+      · rw [h0, Nat.mul_zero] at h1; omega
+      · have : g * 1 ≤ g * L := Nat.mul_le_mul_left g h0
+        omega
+    have hmc : (if mid.1 = v.numCols then 0 else mid.1) < v.numCols := by split <;> omega
+    have hout := outer_spec m buf h ha getRowMut hget hmc hmr0 hmr of (v.numRows + 2) 0 buf
+      (fun r => r) (fun _ => 0) [] hg (by omega)
+      (gather_eq_self buf _ (fun p _ => VW.mapCells_eq_self _ (fun c r hc _ => by
+        simp only [rowG, Nat.add_zero, Nat.mod_eq_of_lt hc]) p)).symm
+      (by simp) List.nodup_nil (fun r hr => by cases hr) (fun r _ hr => by cases hr)
+      (fun r _ _ => ⟨rfl, rfl⟩)
+    rw [Nat.zero_mul] at hout
+    unfold Acc.translateWithWrap
+    simp only [ha.cols, ha.rows, hm.1, hm.2, not_true_eq_false, if_false]
+    rw [if_neg (by omega : ¬ mid.2 = v.numRows), if_neg (by omega : ¬ mid.2 = 0), usub_ok m _ _ hm.2]
+    simp only [ok_bind]
+    rw [hout]
+    congr 1
+    apply gather_congr
+    intro p _
+    apply VW.mapCells_congr
+    intro c r _ _
+    simp only [trG, Prod.mk.injEq, and_true]
+    split
+    · rename_i h1; rw [h1, Nat.add_mod_right, Nat.add_zero]
+    · rfl
 
 end Toodee
